@@ -221,6 +221,8 @@ def heap_log_violations(interp):
             if in_init or attr in MEMO_FIELDS:
                 continue
             bad.append(f"{where}: {obj.name}.{attr} written")
+        elif kind == "mutate-set":
+            bad.append(f"{e[3]}: a set object was updated in place (sets of variable names are shared between nodes)")
         elif kind in ("mutate-list", "mutate-dict"):
             cid, where = e[1], e[3]
             if cid in owner:
